@@ -1412,6 +1412,16 @@ class ForAll(BinaryOperator):
     def condition(self, value):
         self.right = value
 
+    @lru_cache(maxsize=None)
+    def _required_variables_from_child_(self, child: Optional[SymbolicExpression] = None, when_true: bool = True):
+        required_vars = HashedIterable()
+        required_vars.update(super()._required_variables_from_child_(child, when_true))
+        if child is self.right:
+            # the rows of the condition are intersected per value of the universal variable, so a row that was
+            # already produced for another value of it is not a duplicate.
+            required_vars.update(self.left._unique_variables_)
+        return required_vars
+
     @property
     @lru_cache(maxsize=None)
     def condition_unique_variable_ids(self) -> List[int]:
